@@ -272,7 +272,13 @@ impl Mux {
                         length -= size;
                     }
                 }
-                _ => unreachable!("bad FrameKind"),
+                // Both frame kind bits set: no such frame kind.
+                _ => {
+                    return Err(RunError::Protocol(anyhow::format_err!(
+                        "bad frame kind in header {:#06x}",
+                        header.0
+                    )))
+                }
             }
         }
     }
